@@ -75,8 +75,26 @@ def scenario(rng, kind):
 KINDS = ['plain', 'rewrite', 'username', 'ttl', 'chap', 'reject', 'acct', 'acctresp', 'status', 'disconnect', 'dup',
          'reply', 'reply-rewrite', 'reply-hidden', 'wpass', 'probe']
 
+def frame_cases(rng, tier):
+    """the stream readers (tcp.c, tls.c): the n-th allocation made while 1..3 packets are being read off a connection
+    fails, for every n; the peer then closes, stalls, or sends a bad length field.  A packet is dropped whole or not at all."""
+    import C16
+    ops = []
+    for rd in C16.READERS:
+        for npk in (1, 2, 3):
+            for tail in ('', 'bad', 'part'):
+                s = b''.join(C16.pkt(rng, rng.choice([20, 21, 40])) for _ in range(npk))
+                if tail == 'bad':
+                    s += bytes([1, 1, 0, 3]) + rbytes(rng, 8)
+                elif tail == 'part':
+                    s += C16.pkt(rng, 40)[:rng.choice([2, 4, 14, 39])]
+                for n in range(1, 2 * npk + 4):
+                    sched = rng.choice([['r100'] * 8, ['r7'] * (len(s) // 7 + 3), ['r100', 't', 'r100', 'r100', 'r100'], ['r100', 'r100', 'e']])
+                    ops.append('op framefail %d %s - %s %s' % (n, rd, hx(s), ' '.join(sched)))
+    return [(cid, ["cfg nopipe"] + lines) for cid, lines in batch(ops, "ffail", 30)]
+
 def generate(rng, tier):
-    out = []
+    out = frame_cases(rng, tier)
     reps = 3 if tier == 'thorough' else 1
     maxn = 260 if tier == 'thorough' else 140
     for kind in KINDS:
